@@ -35,6 +35,12 @@ HAND = [
     "template T(n) { signal input in; signal output out; var k = 253; component nb = Num2Bits(k); nb.in <== in; out <== nb.out[0]; }",
     "template T(n) { signal input in; signal output out; var k = 254; component nb = Num2Bits(k + 0); nb.in <== in; out <== nb.out[0]; }",
     "template T(n) { signal input in; signal output out; signal s; s <== 5; if (s == 5) { out <== in; } else { out <== 0; } }",
+    # joins of three and more edges with a local still unassigned on one of them, the others carrying equal constants
+    "function f(a, b) { var x; if (a) { x = 5; if (b) { x = 2 + 3; } } if (x == 5) { return 1; } return 2; }",
+    "function f(a, b) { var x; if (a) { x = 1; } else { if (b) { x = 1; } } if (x == 1) { return 1; } return 2; }",
+    "function f(n, c) { var acc; var i = 0; while (i < n) { acc = 7; i += 1; if (c) { acc = 3 + 4; } } if (acc == 7) { return 1; } return 2; }",
+    "function f(a, b) { var x; var y = 0; if (a) { x = 4; if (b) { x = 4; if (a == 2) { x = 2 * 2; } } } y = x + 1; if (y == 5) { return 1; } return 2; }",
+    "function f(a, b) { var x; for (var i = 0; i < 2; i++) { if (a) { x = 9; } else { if (b) { x = 9; } } } if (x == 9) { return 1; } return 2; }",
     # a signal assigned by two statements on different paths: constant on one, not on the other
     "template T(n) { signal input in; signal output out; signal s; if (n == 1) { s <== 1; } else { s <== in; } if (s == 1) { out <== in; } else { out <== 0; } }",
     "template T(n) { signal input in; signal output out; signal s; if (n == 1) { s <== in; } else { s <== 1; } if (s == 1) { out <== in; } else { out <== 0; } }",
